@@ -21,6 +21,10 @@ Section T.
   Lemma KT_g2_Nprime n : g2_Nprime n = n.
   Proof. reflexivity. Qed.
 
+  (* the Taylor mask is the exact complement of the stable mask (an event AT the threshold is in it) *)
+  Lemma KT_m_unstable b : k_m_unstable b = negb b.
+  Proof. reflexivity. Qed.
+
   (* N' of calculate_log_lambda_and_grads is the length of the ratio array *)
   Lemma nlen_is_e_Nprime {T} (Nm : Num T) (X : list T) :
     nlen Nm X = ofZ Nm (e_Nprime (Z.of_nat (length X))).
@@ -87,6 +91,24 @@ Section T.
     destruct (tc_counts_current st0 ops raw None (Some f) []) as (A & _ & _ & D & _).
     cbn [map] in A, D. cbn [last trial_N trial_events] in A, D.
     split; [exact A|]. rewrite D. f_equal. lia.
+  Qed.
+
+
+  (* the public `events` setter changes N' and N - N', never N *)
+  Theorem tc_events_setter (st : tcounts E) (evs : list E) :
+    let st' := tc_step st (TSetEvents evs) in
+    tc_n_events st' = tc_n_events st
+    /\ tc_events st' = evs
+    /\ tc_n_selected st' = Z.of_nat (length evs)
+    /\ tc_n_pure_bkg st' = match tc_n_events st with
+                           | Some n => Some (n - Z.of_nat (length evs))%Z
+                           | None => None
+                           end.
+  Proof.
+    cbv zeta. cbn [tc_step]. unfold tc_n_selected, tc_n_pure_bkg. cbn [tc_n_events tc_events].
+    rewrite KT_n_selected.
+    split; [reflexivity|]. split; [reflexivity|]. split; [reflexivity|].
+    destruct (tc_n_events st); [rewrite KT_n_pure_bkg|]; reflexivity.
   Qed.
 
   (* ---- the value computed on the manager *)
